@@ -56,6 +56,12 @@ CHECKS = {
             "audited set (no memoised validators/helpers).  Tie: after every reconfiguration of a random history the dumped cells are checked well-bound in Coq, and "
             "after every call the live element is compared with one freshly built from the configuration reached.",
             "full on the model; absence of hidden state in the code rests on the translator's scan and the history oracle"),
+    "C14": ("Coq theorem over ALL schedules (any merge of the threads' bind micro-steps, and every prefix, leaves the shared store unchanged) + write-set obligation regenerated from /repo + thread stress oracle with widened race windows",
+            "C14_any_schedule/C14_any_number_of_threads: the only shared writes of concurrent calls are binds of well-bound properties, which are identities, so every "
+            "thread reads at every point of every interleaving what it would read alone; C14_no_shared_scratch_state re-checks on each run that no per-call state is "
+            "stored on shared elements/classes.  The interpreter's scheduler, the GIL and bytecode atomicity are runtime: the stress run (8-16 threads, switch interval "
+            "1e-6, yielding bind and format checkers, outcomes vs the same call alone on a fresh tree, dump before/after) can only sample schedules.",
+            "partial by nature: schedule-independence of the logic is proved; the runtime scheduler is sampled"),
 }
 
 REASONS_PENDING = "check under construction in this session: not yet claimed"
